@@ -89,6 +89,38 @@ impl VM {
         self.alloc_object(obj)
     }
 
+    /// Validates the element count of a sized array constructor BEFORE any storage is built for it:
+    /// a negative count is a type error (as for `alloc`), and the bytes the array will be charged
+    /// (computed with checked arithmetic) must fit the heap limit.
+    pub(crate) fn checked_array_len(
+        &self,
+        count: Value,
+        elem_size: usize,
+    ) -> Result<usize, RuntimeError> {
+        let count = match count.as_int() {
+            Some(n) if n >= 0 => n as u64,
+            Some(_) => {
+                return Err(self.runtime_error(RuntimeErrorKind::TypeError {
+                    operation: "array size",
+                    expected: "non-negative integer",
+                    got: self.value_type_name(count).to_string(),
+                }));
+            }
+            None => 0,
+        };
+        let bytes = count
+            .checked_mul(elem_size as u64)
+            .and_then(|b| b.checked_add(std::mem::size_of::<AelysArray>() as u64))
+            .ok_or_else(|| {
+                self.runtime_error(RuntimeErrorKind::OutOfMemory {
+                    requested: self.config.max_heap_bytes.saturating_add(1),
+                    max: self.config.max_heap_bytes,
+                })
+            })?;
+        self.ensure_heap_capacity(bytes)?;
+        Ok(count as usize)
+    }
+
     pub fn alloc_vec(&mut self, vec: AelysVec) -> Result<GcRef, RuntimeError> {
         let size = vec.size_bytes() as u64;
         self.ensure_heap_capacity(size)?;
